@@ -149,6 +149,9 @@ def build_unit(name):
                     spec["contract"] = (text, cur_line)
                 elif cur[0] == "body_contract":
                     spec["body_contract"] = (text, cur_line)
+                elif cur[0] == "contract_extra":
+                    base = spec.get("contract", ("", cur_line))
+                    spec["contract"] = (base[0] + text, base[1])
                 elif cur[0] == "loop":
                     spec["loops"][cur[1]] = (text, cur_line)
                 elif cur[0] in ("before", "after"):
@@ -198,6 +201,8 @@ def build_unit(name):
                     spec["stub"] = True
                 elif d2 == "body_contract":
                     cur, cur_line = ("body_contract",), i + 2
+                elif d2 == "contract_extra":
+                    cur, cur_line = ("contract_extra",), i + 2
                 elif d2 == "contract":
                     cur, cur_line = ("contract",), i + 2
                 elif d2 == "loop":
@@ -402,8 +407,13 @@ def run_unit(name, prop):
         for e in errs:
             eprops = set(pp for pp, _ in e["tags"])
             if not eprops:
-                # untagged failure inside repo code: a safety obligation (overflow, bounds, division, callee precondition)
-                eprops = {u.safety_prop} if u.safety_prop else set(u.default_props)
+                if e["origin"][0] == "repo":
+                    # untagged failure inside repo code: a safety obligation (overflow, bounds, division, callee precondition)
+                    eprops = {u.safety_prop} if u.safety_prop else set(u.default_props)
+                else:
+                    # untagged proof scaffolding (an overlay assert / invariant) failed: Verus assumes it afterwards, so every property
+                    # whose clauses are proved inside this function is no longer established
+                    eprops = set(props_of_fn)
             if prop in eprops:
                 mine.append(e)
         if prop not in props_of_fn and not mine:
